@@ -182,7 +182,7 @@ func (w *Writer) fill(n *node, depth int, flat bool, col int) {
 				is = []byte(spaces[0:x])
 			}
 		}
-		if !w.Align || w.MaxDepth < n.depth || len(n.members) < 2 || w.checkAlign(n, start, comma, cs) {
+		if !w.Align || flat || w.MaxDepth < n.depth || len(n.members) < 2 || w.checkAlign(n, start, comma, cs) {
 			for i, m := range n.members {
 				if 0 < i {
 					w.buf = append(w.buf, comma...)
@@ -238,7 +238,7 @@ func (w *Writer) fill(n *node, depth int, flat bool, col int) {
 			}
 		}
 		keyWidth := 1
-		if w.Align {
+		if w.Align && !flat {
 			for _, m := range n.members {
 				if keyWidth < len(m.key) {
 					keyWidth = len(m.key)
